@@ -332,6 +332,17 @@ func (vc *VC) structSort(t types.Type, st *types.Struct) string {
 	return sn
 }
 
+// constArray: a constant array; cvc5 only accepts values under `as const`, so arrays of declared
+// constants (string literals) are introduced by a quantified definition instead.
+func (vc *VC) constArray(sort, elem string) string {
+	if !strings.Contains(elem, "!") {
+		return fmt.Sprintf("((as const %s) %s)", sort, elem)
+	}
+	n := vc.fresh("carr", sort)
+	vc.emit(fmt.Sprintf("(assert (forall ((i Int)) (! (= (select %s i) %s) :pattern ((select %s i)))))", n, elem, n))
+	return n
+}
+
 func (vc *VC) zeroOf(t types.Type) string {
 	s := vc.sortOf(t)
 	return vc.zeroOfSort(s, t)
@@ -356,7 +367,7 @@ func (vc *VC) zeroOfSort(s string, t types.Type) string {
 	if strings.HasPrefix(s, "(Array ") {
 		if t != nil {
 			if a, ok := t.Underlying().(*types.Array); ok {
-				return fmt.Sprintf("((as const %s) %s)", s, vc.zeroOf(a.Elem()))
+				return vc.constArray(s, vc.zeroOf(a.Elem()))
 			}
 		}
 		// generic: parse element sort
@@ -480,11 +491,28 @@ func (vc *VC) fieldKey(t types.Type, st *types.Struct, i int) (string, string) {
 	return key, fs
 }
 
+// memKey: element memory is separated by Go element type (no aliasing between differently typed
+// slices/arrays without unsafe).
 func (vc *VC) memKey(elem types.Type) string {
 	es := vc.sortOf(elem)
-	key := "M:" + es
+	key := "M:" + canonType(elem)
 	vc.regKey(key, arrSort(SInt, arrSort(SInt, es)))
 	return key
+}
+
+func canonType(t types.Type) string {
+	if b, ok := t.(*types.Basic); ok {
+		switch b.Kind() {
+		case types.Uint8:
+			return "uint8"
+		case types.Int32:
+			return "int32"
+		}
+	}
+	if a, ok := t.(*types.Alias); ok {
+		return canonType(types.Unalias(a))
+	}
+	return types.TypeString(t, nil)
 }
 
 func (vc *VC) ptrKey(elem types.Type) string {
@@ -497,9 +525,10 @@ func (vc *VC) ptrKey(elem types.Type) string {
 func (vc *VC) mapKeys(mt *types.Map) (dk, vk, lk string) {
 	ks := vc.sortOf(mt.Key())
 	vs := vc.sortOf(mt.Elem())
-	dk = "MD:" + ks
-	vk = "MV:" + ks + ">" + vs
-	lk = "ML"
+	tn := "map[" + canonType(mt.Key()) + "]" + canonType(mt.Elem())
+	dk = "MD:" + tn
+	vk = "MV:" + tn
+	lk = "ML:" + tn
 	vc.regKey(dk, arrSort(SInt, arrSort(ks, SBool)))
 	vc.regKey(vk, arrSort(SInt, arrSort(ks, vs)))
 	vc.regKey(lk, arrSort(SInt, SInt))
